@@ -16,4 +16,5 @@ var Harnesses = map[string]func(){
 	"cont.H_Hist":             cont.H_Hist,
 	"cont.H_Build":            cont.H_Build,
 	"cont.H_Order":            cont.H_Order,
+	"cont.H_Dispose":          cont.H_Dispose,
 }
